@@ -2,6 +2,7 @@
 import json
 import os
 import re
+import time
 import unicodedata
 from lib import common, terms
 from lib.common import Report, run_jobs, generate
@@ -41,6 +42,7 @@ HELPER = r"""
 :- use_module(library(dcgs)).
 :- use_module(library(between)).
 :- use_module(library(iso_ext)).
+:- use_module(library(terms)).
 
 vt_kind(writeq, stream). vt_kind(write_canonical, stream). vt_kind(wt_q, stream). vt_kind(wt_qi, stream).
 vt_kind(wt_qn, stream). vt_kind(wt_qin, stream). vt_kind(chars_q, chars). vt_kind(chars_qi, chars). vt_kind(format_q, chars).
@@ -52,7 +54,21 @@ vt_cwrite(format_q, _, T, Cs) :- !, phrase(format_("~q", [T]), Cs).
 vt_cwrite(_, Os, T, Cs) :- write_term_to_chars(T, Os, Cs).
 
 vt_item(Id, Mode, T, E) :- vt_t(Id, T, M), ( Mode == nv, M = nv(E0) -> E = E0 ; E = T ).
+
+% Accept of WriteRead.tla: variant (the two terms share no variables), -0.0 identified with 0.0
 vt_variant(A, B) :- subsumes_term(A, B), subsumes_term(B, A).
+vt_accept(E, T1) :- vt_variant(E, T1), !.
+vt_accept(E, T1) :- vt_znorm(E, E1), vt_znorm(T1, T2), vt_variant(E1, T2).
+vt_znorm(T, T) :- var(T), !.
+vt_znorm(T, Z) :- float(T), !, ( T =:= 0 -> Z = 0.0 ; Z = T ).
+vt_znorm(T, T) :- atomic(T), !.
+vt_znorm(T, Z) :- T =.. [F|As], vt_znorm_l(As, Zs), Z =.. [F|Zs].
+vt_znorm_l([], []).
+vt_znorm_l([A|As], [Z|Zs]) :- vt_znorm(A, Z), vt_znorm_l(As, Zs).
+
+% results carry text only (the written chars; terms and balls in canonical notation, for the report)
+vt_text(T, Cs) :- copy_term(T, T1), numbervars(T1, 0, _),
+    catch(write_term_to_chars(T1, [quoted(true), ignore_ops(true)], Cs), _, Cs = "<unprintable>").
 
 vt_run(W, Ids, N, Bad) :- vt_kind(W, K), vt_run(K, W, Ids, N, Bad).
 vt_run(chars, W, Ids, N, Bad) :-
@@ -66,16 +82,32 @@ vt_run(stream, W, Ids, N, Bad) :-
     open(F, write, S), vt_wall(Ts, W, Os, S, WRs), close(S),
     open(F, read, S1), vt_rall(WRs, S1, Rs), close(S1),
     length(Rs, N),
-    findall(Id-R, (member(Id-R, Rs), R \== ok), Bad).
+    findall(Id-R, (member(Id-R0, Rs), R0 \== ok, vt_confirm(W, Os, Mode, Id, R0, R)), Bad).
+
+% A difference found in the batch file is attributed to the term only if the same term, written with the same
+% options to chars and read back on its own, shows the same difference (that also delivers the text); otherwise
+% (the batch may have lost synchronisation after an earlier broken text) the driver re-runs the term through a
+% file of its own (vt_single).
+vt_confirm(_, _, _, _, werr(X), werr(X)) :- !.
+vt_confirm(W, Os, Mode, Id, R0, R) :-
+    vt_item(Id, Mode, T, E),
+    ( W == writeq -> W1 = chars_n ; W1 = chars_o ),
+    vt_chars_one(W1, Os, T, E, R1),
+    (  R0 = diff(batch, G), R1 = diff(Cs, G) -> R = diff(Cs, G)
+    ;  R0 = rerr(batch, X), R1 = rerr(Cs, X) -> R = rerr(Cs, X)
+    ;  R = R0 ).
 
 vt_chars_one(W, Os, T, E, R) :-
     catch((vt_cwrite(W, Os, T, Cs), WR = ok), WE, WR = werr(WE)),
-    (  WR \== ok -> R = WR
+    (  WR = werr(WE1) -> vt_text(WE1, WT), R = werr(WT)
     ;  append(Cs, " .", Cs1),
        catch((read_term_from_chars(Cs1, T1, []), RR = ok), RE, RR = rerr(RE)),
-       (  RR = rerr(RE1) -> R = rerr(Cs, RE1)
-       ;  vt_variant(E, T1) -> R = ok
-       ;  R = diff(Cs, T1) ) ).
+       vt_verdict(RR, Cs, E, T1, R) ).
+
+vt_verdict(RR, Cs, E, T1, R) :-
+    (  RR = rerr(RE1) -> vt_text(RE1, ET), R = rerr(Cs, ET)
+    ;  vt_accept(E, T1) -> R = ok
+    ;  vt_text(T1, GT), R = diff(Cs, GT) ).
 
 vt_wall([], _, _, _, []).
 vt_wall([Id-T-E|Ts], W, Os, S, [Id-E-R|Rs]) :-
@@ -85,10 +117,8 @@ vt_wall([Id-T-E|Ts], W, Os, S, [Id-E-R|Rs]) :-
 vt_rall([], _, []).
 vt_rall([Id-E-WR|Ts], S, [Id-R|Rs]) :-
     catch((read_term(S, T1, []), RR = ok), RE, RR = rerr(RE)),
-    (  WR \== ok -> R = WR
-    ;  RR = rerr(RE1) -> R = rerr(batch, RE1)
-    ;  vt_variant(E, T1) -> R = ok
-    ;  R = diff(batch, T1) ),
+    (  WR = werr(WE1) -> vt_text(WE1, WT), R = werr(WT)
+    ;  vt_verdict(RR, batch, E, T1, R) ),
     vt_rall(Ts, S, Rs).
 
 % one term through its own file (authoritative for the stream legs; also delivers the text)
@@ -99,18 +129,26 @@ vt_single(stream, W, Os, T, E, R) :-
     open(F, write, S),
     catch((vt_swrite(W, Os, S, T), WR = ok), WE, WR = werr(WE)),
     close(S),
-    (  WR \== ok -> R = WR
+    (  WR = werr(WE1) -> vt_text(WE1, WT), R = werr(WT)
     ;  open(F, read, S0), get_n_chars(S0, _, Cs), close(S0),
        open(F, append, S2), write(S2, ' .'), nl(S2), close(S2),
        open(F, read, S1),
        catch((read_term(S1, T1, []), RR = ok), RE, RR = rerr(RE)),
        close(S1),
-       (  RR = rerr(RE1) -> R = rerr(Cs, RE1)
-       ;  vt_variant(E, T1) -> R = ok
-       ;  R = diff(Cs, T1) ) ).
+       vt_verdict(RR, Cs, E, T1, R) ).
 
 vt_ops(L) :- findall(op(P, S, N), current_op(P, S, N), L).
-vt_built(Ids, L) :- findall(Id-T, (member(Id, Ids), vt_t(Id, T, _)), L).
+
+% structural image of an item in a form the embedding API always delivers (it panics on some improper lists):
+% v(K) | n(Number) | a(Atom) | c(Functor, [Images])
+vt_enc(Id, E) :- vt_t(Id, T, _), vt_enc(T, E, [], _).
+vt_enc(T, v(K), Vs0, Vs) :- var(T), !, ( vt_idx(Vs0, T, 0, K) -> Vs = Vs0 ; length(Vs0, K), append(Vs0, [T], Vs) ).
+vt_enc(T, n(T), Vs, Vs) :- number(T), !.
+vt_enc(T, a(T), Vs, Vs) :- atom(T), !.
+vt_enc(T, c(F, Es), Vs0, Vs) :- T =.. [F|As], vt_enc_l(As, Es, Vs0, Vs).
+vt_enc_l([], [], Vs, Vs).
+vt_enc_l([A|As], [E|Es], Vs0, Vs) :- vt_enc(A, E, Vs0, Vs1), vt_enc_l(As, Es, Vs1, Vs).
+vt_idx([V|Vs], T, K0, K) :- ( V == T -> K = K0 ; K1 is K0 + 1, vt_idx(Vs, T, K1, K) ).
 """
 
 
@@ -126,10 +164,6 @@ def fix(t):
     if tag == "c":
         return {"t": "c", "n": t["n"], "i": 0, "a": [fix(x) for x in t["a"]]}
     return t
-
-
-def canon(t):
-    return zero_norm(terms.from_tla(fix(t)))
 
 
 def zero_norm(c):
@@ -193,6 +227,10 @@ class Render:
             return str(k) if k >= 0 else self.neg(str(-k))
         if tag == "f":
             bits = int(t["n"], 16)
+            if bits == 1 << 63:          # -0.0 is only obtainable by underflow: -(0.0) evaluates to 0.0
+                self.k += 1
+                self.pre.append("_N%d is '/'('-'(1.0e-300), 1.0e300)" % self.k)
+                return "_N%d" % self.k
             if bits >> 63:
                 return self.neg(terms.float_text(bits & ((1 << 63) - 1)))
             return terms.float_text(bits)
@@ -240,23 +278,22 @@ class Item:
             return "vt_t(%d, T, same) :- %s, T = %s." % (i, ", ".join(r.pre), tt)
         return "vt_t(%d, %s, same)." % (i, tt)
 
-    def expected(self, numbervars):
-        return canon(self.nv if (numbervars and self.nv is not None) else self.t)
-
     def applicable(self, leg, wopts):
-        if wopts[leg]["numbervars"] and not self.nvdef:
+        """WriteRead!Applicable, as reported per writer by MC_C15!WInfo"""
+        if wopts[leg]["needs_nvdef"] and not self.nvdef:
             return False
-        if leg == "format_q" and not self.safe:
+        if wopts[leg]["needs_safe"] and not self.safe:
             return False
         return True
 
 
 def leg_facts(wopts):
     out = []
-    for w, o in sorted(wopts.items()):
+    for w, info in sorted(wopts.items()):
+        o = info["opts"]
         opts = "[quoted(%s),ignore_ops(%s),numbervars(%s)]" % tuple(
             "true" if o[k] else "false" for k in ("quoted", "ignore_ops", "numbervars"))
-        out.append("vt_leg(%s, %s, %s)." % (w, opts, "nv" if o["numbervars"] else "plain"))
+        out.append("vt_leg(%s, %s, %s)." % (w, opts, info["expect"]))
     return "\n".join(out) + "\n"
 
 
@@ -298,14 +335,15 @@ class Plan:
         self.items = items
         self.legs = legs
         self.wopts = wopts
-        self.file = os.path.join(workdir, "rt-%s.txt" % uid)
-        facts = ['vt_file("%s").' % self.file, leg_facts(wopts)]
+        self.file = os.path.join(workdir, "rt-%s" % uid)
+        facts = [leg_facts(wopts)]
         facts += [it.clause(i) for i, it in enumerate(items)]
         self.program = HELPER + "\n".join(facts) + "\n"
         self.ids = {leg: [i for i, it in enumerate(items) if it.applicable(leg, wopts)] for leg in legs}
 
-    def prelude(self):
-        steps = [{"consult": self.program}]
+    def prelude(self, jid="0"):
+        # every job writes to a file of its own (jobs of one plan run concurrently)
+        steps = [{"consult": self.program + 'vt_file("%s-%s.txt").\n' % (self.file, re.sub(r"[^A-Za-z0-9]", "_", str(jid)))}]
         for d in self.table.hist:
             steps.append({"q": "op(%d, %s, %s)." % (int(d["p"]), d["s"], qatom(d["n"])), "max": 1})
         steps.append({"q": "vt_ops(L).", "max": 1})
@@ -313,7 +351,7 @@ class Plan:
 
     def job(self, jid, queries, timeout=600):
         return {"id": jid, "fresh": True, "timeout": timeout,
-                "steps": self.prelude() + [{"q": q, "max": 1} for q in queries]}
+                "steps": self.prelude(jid) + [{"q": q, "max": 1} for q in queries]}
 
     def check_prelude(self, res):
         """the real table after the history must be the table of the specification (binding precondition)"""
@@ -350,20 +388,24 @@ def parse_bad(ans):
     return n, bad
 
 
+def chars_text(x):
+    if "s" in x:
+        return x["s"]
+    if "l" in x:
+        return "".join(e.get("a", "?") for e in x["l"])
+    if x.get("a") == "[]":
+        return ""
+    return None
+
+
 def parse_r(r):
-    if "a" in r and r["a"] == "ok":
+    """result term of the helper -> (kind, written text | None, message text)"""
+    if r.get("a") == "ok":
         return ("ok", None, None)
     f, args = r["c"], r["args"]
     if f == "werr":
-        return ("werr", None, terms.from_h(args[0]))
-    txt = None
-    if "s" in args[0]:
-        txt = args[0]["s"]
-    elif "l" in args[0]:
-        txt = "".join(x.get("a", "?") for x in args[0]["l"])
-    elif args[0].get("a") == "[]":
-        txt = ""
-    return (f, txt, terms.from_h(args[1]))
+        return ("werr", None, chars_text(args[0]))
+    return (f, chars_text(args[0]), chars_text(args[1]))
 
 
 class Runner:
@@ -492,15 +534,11 @@ class Runner:
     def judge(self, p, leg, i, kind, txt, payload):
         it = p.items[i]
         if kind == "diff":
-            exp = it.expected(self.wopts[leg]["numbervars"])
-            got = zero_norm(payload)
-            if terms.variant(exp, got):
-                return                       # e.g. -0.0 read back as 0.0: accepted by the specification
-            outcome = "read back as %s" % terms.show(payload)
+            outcome = "read back as %s" % payload
         elif kind == "rerr":
-            outcome = "read error %s" % terms.show(payload)
+            outcome = "read error %s" % payload
         elif kind == "werr":
-            outcome = "writer threw %s" % terms.show(payload)
+            outcome = "writer threw %s" % payload
         else:
             outcome = "%s %s" % (kind, payload)
         outcome = re.sub(r"_[0-9]+", "_", outcome)
@@ -521,30 +559,44 @@ class Runner:
             self.rep.violation(sig, detail)
 
 
-def check_built(plan, workers):
+def dec_image(e):
+    """image delivered by vt_enc/2 -> canonical tuple"""
+    f, args = e["c"], e["args"]
+    if f == "v":
+        return ('v', "_G%s" % args[0]["i"])
+    if f == "n":
+        return terms.from_h(args[0])
+    if f == "a":
+        return ('a', args[0]["a"]) if "a" in args[0] else ('a', '[]')
+    name = args[0]["a"] if "a" in args[0] else '[]'
+    sub = args[1].get("l", []) if isinstance(args[1], dict) else []
+    return ('c', name, tuple(dec_image(x) for x in sub))
+
+
+def check_built(plan, workers, rep):
     """binding precondition: every item, as built in the real system from its canonical text, IS the term of the
-    specification (structural JSON image, numbers exact, floats by bits). A mismatch is a tool error, not a finding of C15."""
-    ids = list(range(len(plan.items)))
-    jobs = []
-    for c in range(0, len(ids), 1000):
-        jobs.append(plan.job("built%d" % c, ["vt_built(%s, L)." % ids_text(ids[c:c + 1000])], timeout=300))
-    results = run_jobs(jobs, workers=workers, job_timeout=300)
-    n = 0
-    for j in jobs:
-        r = results.get(j["id"], {})
-        ent = r["res"][-1] if "res" in r else {}
-        a = ent.get("a")
-        if not a or not isinstance(a[0], dict) or "b" not in a[0]:
+    specification (structural image, numbers exact, floats by bits). A mismatch is a tool error, not a finding of C15."""
+    n = len(plan.items)
+    nh = len(plan.table.hist) + 2
+    jobs = {"built%d" % c: list(range(c, min(n, c + 1000))) for c in range(0, n, 1000)}
+    results = run_jobs([plan.job(j, ["vt_enc(%d, E)." % i for i in ids], timeout=600) for j, ids in jobs.items()],
+                       workers=workers, job_timeout=600)
+    for j, ids in jobs.items():
+        r = results.get(j, {})
+        if "res" not in r or len(r["res"]) != nh + len(ids):
             raise common.ToolError("C15: could not build the items: %s" % json.dumps(r)[:400])
-        for e in a[0]["b"]["L"].get("l", []):
-            i = int(e["args"][0]["i"])
-            got = terms.from_h(e["args"][1])
-            exp = terms.from_tla(plan.items[i].t)
-            if not terms.variant(exp, got):
-                raise common.ToolError("C15: item %s was built as %s" % (plan.items[i].show, terms.show(got)))
-            n += 1
-    if n != len(ids):
-        raise common.ToolError("C15: built %d of %d items" % (n, len(ids)))
+        plan.check_prelude(r["res"])
+        for k, ent in enumerate(r["res"][nh:]):
+            it = plan.items[ids[k]]
+            a = ent.get("a")
+            if not a or not isinstance(a[0], dict) or "b" not in a[0]:
+                raise common.ToolError("C15: item %s was not built: %s" % (it.show, json.dumps(ent)[:300]))
+            # -0.0 and 0.0 are identified: the float table of the machine interns them as one value (which of
+            # the two a computation delivers depends on what was interned before), as the property anticipates
+            got = zero_norm(dec_image(a[0]["b"]["E"]))
+            if not terms.variant(zero_norm(terms.from_tla(it.t)), got):
+                raise common.ToolError("C15: item %s was built as %s" % (it.show, terms.show(got)))
+    rep.extra["items_built_and_verified"] = n
 
 
 def load_vectors(vecs):
@@ -579,8 +631,11 @@ def run(tier):
                 "class, specifier+priority of outer operator, of inner operator)" % (2 if quick else 3))
     workdir = os.path.join(common.WORK, "c15", "run-%d" % os.getpid())
     os.makedirs(workdir, exist_ok=True)
+    t0 = time.time()
+    phases = {}
     res, vecs = generate("MC_C15", "MC_C15_%s.cfg" % tier, workers=8 if quick else 12, timeout=3000)
     rep.add_tlc(res)
+    phases["tlc"] = round(time.time() - t0, 1)
     tables, items, wopts, _ = load_vectors(vecs)
     if not tables or not items or not wopts:
         raise common.ToolError("C15: no vectors")
@@ -592,12 +647,17 @@ def run(tier):
         sel = [it for it in items if it.needs <= tb.shapes]
         legs = all_legs if (len(tb.hist) == 0 or (not quick and len(tb.hist) <= 1)) else list(CORE_LEGS)
         plans.append(Plan("t%d" % ti, tb, sel, legs, wopts, workdir))
-    check_built(Plan("b0", tables[0], items, [], wopts, workdir), 8)
+    t0 = time.time()
+    check_built(Plan("b0", tables[0], items, [], wopts, workdir), 8, rep)
+    phases["built"] = round(time.time() - t0, 1)
+    t0 = time.time()
     runner = Runner(rep, wopts, workdir)
     runner.run(plans, workers=8 if quick else 14)
+    phases["round_trips"] = round(time.time() - t0, 1)
+    rep.extra["phase_seconds"] = phases
     nbeh = len(plans)
     if not quick:
-        sims = common.simulate_parallel("MC_C15", "MC_C15_sim.cfg", procs=10, num=12, depth=6, timeout=3000)
+        sims = common.simulate_parallel("MC_C15", "MC_C15_sim.cfg", procs=10, num=30, depth=6, timeout=3000)
         splans = []
         for si, sim in enumerate(sims):
             common.tlc_ok(sim, "C15 simulation")
